@@ -427,6 +427,9 @@ def curated():
     A(('arr', string, 3)); A(('arr', P('double'), 1)); A(('carr', string, 3)); A(('arr', ('pair', u8, string), 3))
     A(('vec', ('vec', ('vec', i32))))
     A(('vec', ('arr', u16, 3)))
+    # wide strings FOLLOWED by further members (the string decoder ensures characters and reads bytes)
+    A(p.struct([('s', ('str', 'char16_t')), ('n', u64), ('v', ('vec', u16))], name='StWide16'))
+    A(('pair', ('str', 'char32_t'), u64)); A(('tup', [('str', 'wchar_t'), i32, ('str', 'char16_t'), u8]))
     # arrays nested in arrays (outer ARY of inner BIN / ARY), as structure members and on their own
     A(p.struct([('m', ('carr', ('carr', i16, 3), 2)), ('s', ('arr', ('arr', string, 2), 2)), ('t', u8)], name='StNest'))
     A(('arr', ('carr', u32, 2), 3)); A(p.lbuf(('arr', u8, 2), 3, 'std::uint8_t', storage='carr', name='LbOfArr'))
